@@ -27,6 +27,10 @@ def repo_root() -> str:
 
 class ModuleInfo:
     def __init__(self, name, relpath, tree, source, kind):
+        from .normalise import normalise
+
+        if kind in ("py", "pyx"):
+            tree = normalise(tree)
         self.name = name
         self.relpath = relpath  # relative to repo root
         self.tree = tree
@@ -340,3 +344,32 @@ def params(fn: ast.FunctionDef) -> list[str]:
 
 def kwonly(fn: ast.FunctionDef) -> list[str]:
     return [x.arg for x in fn.args.kwonlyargs]
+
+
+def nsrc(text: str) -> str:
+    """Normal-form text of a statement/expression given in natural spelling (for comparisons with src() of analysed code)."""
+    from .normalise import normalise
+
+    tree = normalise(ast.parse(text))
+    if len(tree.body) == 1 and isinstance(tree.body[0], ast.Expr):
+        return ast.unparse(tree.body[0].value)
+    return ast.unparse(tree)
+
+
+def assigning_stmts(fn, target: str):
+    """Top-most statements inside fn (if / assignment) that assign the given target chain (after normalisation an
+    if/else assigning one target on both branches is a conditional assignment)."""
+    out = []
+    for n in ast.walk(fn):
+        if isinstance(n, (ast.Assign, ast.AnnAssign)):
+            ts = n.targets if isinstance(n, ast.Assign) else [n.target]
+            if any(chain(t) == target for t in ts):
+                # climb to the outermost enclosing if whose branches only assign this target
+                top = n
+                p = getattr(n, "_parent", None)
+                while isinstance(p, ast.If) and all(isinstance(x, (ast.Assign, ast.If, ast.Pass)) for x in p.body + p.orelse):
+                    top = p
+                    p = getattr(p, "_parent", None)
+                if top not in out:
+                    out.append(top)
+    return out
